@@ -269,7 +269,10 @@ func (d *Decoder) readMap(dest reflect.Value) error {
 		SetValue(dest, r)
 		return nil
 	case _mapTypedTag:
-		d.readString(_tagRead)
+		// the type may be a back-reference, and a literal one must be numbered
+		if _, err := d.readType(); err != nil {
+			return err
+		}
 	case _mapUntypedTag:
 		//do nothing
 	default:
